@@ -8,6 +8,9 @@ const DEFAULT_BUFFER_LEN: usize = if cfg!(test) { 13 } else { 1024 };
 pub(crate) struct TextDecoder {
     encoding: AsciiCompatibleEncoding,
     pending_source_location_bytes_start: usize,
+    /// Bytes already consumed by the streaming decoder (the head of a split multi-byte
+    /// character) that no emitted chunk's source location covers yet
+    pending_unreported_byte_count: usize,
     pending_text_streaming_decoder: Option<Decoder>,
     text_buffer: String,
 }
@@ -21,6 +24,7 @@ impl TextDecoder {
     pub fn new(encoding: AsciiCompatibleEncoding) -> Self {
         Self {
             pending_source_location_bytes_start: 0,
+            pending_unreported_byte_count: 0,
             encoding,
             pending_text_streaming_decoder: None,
             // this will be later initialized to DEFAULT_BUFFER_LEN,
@@ -81,6 +85,12 @@ impl TextDecoder {
             self.init_text_buffer();
         }
 
+        let mut unreported_byte_count = if self.pending_text_streaming_decoder.is_some() {
+            self.pending_unreported_byte_count
+        } else {
+            0
+        };
+
         let decoder = self
             .pending_text_streaming_decoder
             .get_or_insert_with(|| encoding.new_decoder_without_bom_handling());
@@ -92,11 +102,17 @@ impl TextDecoder {
                 decoder.decode_to_str(raw_input, buffer, last_in_text_node);
 
             let finished_decoding = status == CoderResult::InputEmpty;
-            let source_location =
-                SourceLocation::from_start_len(next_source_location_bytes_start, read);
+            // NOTE: the location of an emitted chunk also covers the bytes that were consumed
+            // earlier without producing any output (a character split between two reads).
+            let source_location = SourceLocation::from_start_len(
+                next_source_location_bytes_start - unreported_byte_count,
+                unreported_byte_count + read,
+            );
             next_source_location_bytes_start = source_location.bytes().end;
 
             if written > 0 || last_in_text_node {
+                unreported_byte_count = 0;
+
                 // the last call to feed_text() may make multiple calls to output_handler,
                 // but only one call to output_handler can be *the* last one.
                 let really_last = last_in_text_node && finished_decoding;
@@ -108,13 +124,17 @@ impl TextDecoder {
                     encoding,
                     source_location,
                 )?;
+            } else {
+                unreported_byte_count += read;
             }
 
             if finished_decoding {
                 if last_in_text_node {
                     self.pending_text_streaming_decoder = None;
+                    self.pending_unreported_byte_count = 0;
                 } else {
                     self.pending_source_location_bytes_start = next_source_location_bytes_start;
+                    self.pending_unreported_byte_count = unreported_byte_count;
                 }
                 return Ok(());
             }
